@@ -609,21 +609,29 @@ def run_races(races):
 
 # ------------------------------------------------- probe histories (the real utils.cached)
 
-N_PROBE_OBJS, N_PROBE_ARGS = 9, 8
+N_PROBE_OBJS, N_PROBE_ARGS = 9, 12
 PROBE_NAMES = ["0", "''", "(None, None)", "(1, 2)", "False", "()", "0.0", "'unknown'", "[None]"]
 PROBE_CORPUS = [
     # a result None is memoised like any other; other falsy results too
-    {"probe": {"res": [-1, 0, 1, 2, 3, 4, 5, -1], "cmds": [["C", 0], ["C", 0], ["C", 0]]}},
-    {"probe": {"res": [-1, 0, 1, 2, 3, 4, 5, -1],
+    {"probe": {"res": [-1, 0, 1, 2, 3, 4, 5, -1, 6, 7, 8, 0], "cmds": [["C", 0], ["C", 0], ["C", 0]]}},
+    # distinct argument tuples with equal hashes ((-1,) / (-2,); scale=-1 / scale=-2) have entries of their own
+    {"probe": {"res": [-1, 0, 1, 2, 3, 4, 5, -1, 6, 7, 8, 0],
+               "cmds": [["C", 8], ["C", 9], ["C", 8], ["C", 9], ["C", 10], ["C", 11], ["C", 10], ["I"], ["C", 9], ["C", 8], ["C", 11],
+                        ["C", 10]]}},
+    {"probe": {"res": [-1, 0, 1, 2, 3, 4, 5, -1, 6, 7, 8, 0],
                "cmds": [["C", 0], ["C", 1], ["C", 2], ["C", 3], ["C", 4], ["C", 5], ["C", 6], ["C", 7], ["C", 0], ["C", 1],
                         ["C", 2], ["C", 3], ["C", 4], ["C", 5], ["C", 6], ["C", 7], ["I"], ["C", 7], ["C", 7], ["C", 0]]}},
-    {"probe": {"res": [3, -1, -1, 7, 8, 6, 2, 0], "cmds": [["I"], ["C", 1], ["I"], ["C", 1], ["C", 1], ["I"], ["I"], ["C", 2], ["C", 1]]}},
+    {"probe": {"res": [3, -1, -1, 7, 8, 6, 2, 0, 1, 2, 3, 4], "cmds": [["I"], ["C", 1], ["I"], ["C", 1], ["C", 1], ["I"], ["I"], ["C", 2], ["C", 1]]}},
 ]
 
 
 def gen_probe(rng):
     res = [(-1 if rng.random() < 0.45 else rng.randrange(N_PROBE_OBJS)) for _ in range(N_PROBE_ARGS)]
     hot = [rng.randrange(N_PROBE_ARGS) for _ in range(rng.randint(1, 3))]
+    if rng.random() < 0.3:  # a pair of distinct argument tuples with equal hashes
+        hot = rng.choice([[8, 9], [10, 11]]) + hot[:1]
+        if res[hot[0]] == res[hot[1]]:
+            res[hot[1]] = (res[hot[0]] + 2) % N_PROBE_OBJS
     cmds = []
     for _ in range(rng.randint(2, 14)):
         u = rng.random()
@@ -1749,7 +1757,7 @@ def run(ctx):
                 "Non-trivial: a tty, >= 2 getter calls and >= 1 state change; distinct by full case hash.  "
                 "~15% of histories break the side condition on purpose (model compared, property not judged).  "
                 "PLUS (extra.probe_histories) sequential histories of 2-14 calls / invalidations of a probe under the real "
-                "utils.cached over 8 argument tuples (positional, keyword, None arguments) whose body returns None (45%) or one "
+                "utils.cached over 12 argument tuples (positional, keyword, None arguments, two pairs of distinct tuples with equal hashes) whose body returns None (45%) or one "
                 "of 9 other objects incl. the falsy 0, '', False, (), 0.0, (None, None), runs counted per command; PLUS "
                 "(extra.swap_schedules) deterministic two-thread schedules: programs of 1-3 enable_/disable_win_size_swap calls "
                 "x initial flag x warm/cold cache x the point at which the other thread's get_cell_size() runs (before, after, "
